@@ -5,6 +5,7 @@ package mux
 
 import (
 	"bytes"
+	"encoding/json"
 	"encoding/binary"
 	"errors"
 	"fmt"
@@ -416,6 +417,7 @@ var (
 // inconclusive by the caller unless the property checks themselves find a violation.
 func selfCheck() string {
 	selfOnce.Do(func() {
+		defer settleGoroutines(runtime.NumGoroutine())
 		p := connectPair(8, false, []uint32{1}, nil)
 		defer p.shutdown()
 		res := make(chan string, 1)
@@ -465,5 +467,66 @@ func stacks() string {
 // process; later hangs (rapid shrinking the same failure) are then reported without paying for
 // the confirmation again.
 var hangConfirmed atomic.Bool
+
+// After a time-clause failure has been confirmed the verdict of the run is settled; what
+// follows is rapid minimising the case, where every attempt that still hangs costs the full
+// watchdog time. hangMemo answers repeated executions of a confirmed case at once,
+// hangShrinkBudget bounds the number of further cases that are executed at all (the rest is
+// counted as excluded), so that a hang is reported within the tier's time budget.
+var (
+	hangMemo         sync.Map // case JSON -> ev.Outcome
+	hangShrinkBudget atomic.Int32
+)
+
+const skippedAfterHang = "skipped_after_confirmed_hang"
+
+func caseKey(c any) string {
+	b, _ := json.Marshal(c)
+	return string(b)
+}
+
+// withHangConfirmation runs one case; a failure of a time clause is confirmed by re-executing
+// the same case before it is reported, otherwise the case counts as overloaded.
+func withHangConfirmation(c any, run func() (ev.Outcome, bool)) ev.Outcome {
+	key := caseKey(c)
+	if o, ok := hangMemo.Load(key); ok {
+		return o.(ev.Outcome)
+	}
+	if hangConfirmed.Load() && hangShrinkBudget.Add(1) > 2 {
+		return ev.Outcome{Excluded: skippedAfterHang}
+	}
+	o, hang := run()
+	if !hang {
+		return o
+	}
+	if hangConfirmed.Load() {
+		hangMemo.Store(key, o)
+		return o
+	}
+	o2, hang2 := run()
+	if hang2 {
+		hangConfirmed.Store(true)
+		hangMemo.Store(key, o2)
+		return o2
+	}
+	if o2.Fail != "" {
+		return o2
+	}
+	o2.Overloaded = true
+	return o2
+}
+
+// settleGoroutines waits (briefly) until the goroutines of the case — in particular the
+// reader goroutines of the two multiplexers, which end asynchronously after Close — are gone,
+// so that a panic on one of them still happens while the case is journalled.
+func settleGoroutines(base int) {
+	for i := 0; i < 400 && runtime.NumGoroutine() > base; i++ {
+		if i < 50 {
+			runtime.Gosched()
+		} else {
+			time.Sleep(5 * time.Millisecond)
+		}
+	}
+}
 
 func tierPick(q, th int) int { return ev.Pick(q, th) }
